@@ -28,6 +28,12 @@ POOL = [
      [["map", [1, 2, 0]], ["merge"]]),
     ("version 3.0\nqubit[2] q\nRx(1.0) q[0]\nRz(0.3) q[0]\nCNOT q[1], q[0]\nH q[1]\n",
      [["decompose", "cnot"], ["decompose", "yzy"], ["merge"], ["map", [1, 0]]]),
+    ("version 3.0\nqubit[2] q\nH q[0]\nY90 q[1]\nCNOT q[0], q[1]\nH q[0]\n",
+     [["decompose", "zyz"], ["map", [1, 0]]]),
+    ("version 3.0\nqubit[2] q\nH q[0]\nY90 q[1]\nCNOT q[0], q[1]\nH q[0]\n",
+     [["decompose", "zyz"]]),
+    ("version 3.0\nqubit[3] q\nX90 q[2]\nH q[1]\nS q[0]\nH q[1]\n",
+     [["decompose", "mckay"], ["map", [2, 0, 1]], ["decompose", "xzx"]]),
 ]
 
 WORKER = r"""
@@ -45,9 +51,12 @@ def compile_one(i):
     from opensquirrel.exporter.export_format import ExportFormat
 
     src, pipeline = POOL[i]
-    c = Circuit.from_string(src)
-    for p in pipeline:
-        implrun.apply_pass(c, list(p))
+    try:
+        c = Circuit.from_string(src)
+        for p in pipeline:
+            implrun.apply_pass(c, list(p))
+    except Exception as e:  # noqa: BLE001
+        return f"raised {type(e).__name__}: {str(e)[:120]}"
     out = str(c)
     try:
         out += "\n#v1\n" + c.export(ExportFormat.CQASM_V1)
@@ -87,7 +96,13 @@ def run(ctx):
              "{0,1,2,random}; module tables fingerprinted before/after; gates handed to a callback and gates copied from another "
              "circuit checked for mutation; non-trivial = interleaving of at least 2 compilations")
     fp0, _ = table_fingerprint()
-    ref = [compile_one(i) for i in range(len(POOL))]
+    # reference outputs: every pool entry compiled alone in a fresh process (no compilation history at all)
+    ref = []
+    for i in range(len(POOL)):
+        envv = dict(os.environ, PYTHONHASHSEED="0", VERIF_REPO=env.REPO)
+        p = subprocess.run([sys.executable, "-c", WORKER, env.VERIF, env.REPO, json.dumps([i])], env=envv,
+                           stdout=subprocess.PIPE, stderr=subprocess.PIPE, timeout=600)
+        ref.append(json.loads(p.stdout.decode().strip().splitlines()[-1])[0] if p.returncode == 0 else "worker failed")
     k = ctx.pick(2, 3)
     orders = [list(o) for n in range(1, k + 1) for o in itertools.product(range(len(POOL)), repeat=n)]
     orders += [[rng.randrange(len(POOL)) for _ in range(4)] for _ in range(ctx.pick(10, 120))]
